@@ -8,7 +8,8 @@ from extract import Extractor
 
 SHAPES = ["no-params", "one-param", "two-params", "default", "annotation", "return-annotation", "multi-line", "multi-line-trailing-comma",
           "closing-paren-own-line", "method", "async", "decorated", "positional-only", "keyword-only", "comment-after-colon", "default-contains-paren-colon", "varargs",
-          "keyword-only-parenthesised-default", "varargs-then-parenthesised-default", "annotated-parenthesised-default-and-return-annotation", "last-positional-parenthesised-default", "keyword-only-tuple-default"]
+          "keyword-only-parenthesised-default", "varargs-then-parenthesised-default", "annotated-parenthesised-default-and-return-annotation", "last-positional-parenthesised-default", "keyword-only-tuple-default",
+          "default-then-kwargs", "only-kwargs", "only-varargs", "default-then-varargs", "keyword-only-then-kwargs", "two-defaults-then-kwargs"]
 BODIES = ["call-target", "argument", "keyword-argument", "attribute-base", "binary-operand", "unary-operand", "compare-operand", "subscript-value", "subscript-index",
           "list-element", "tuple-element", "dict-value", "assert", "return", "await", "in-if", "in-for", "in-while", "in-with", "in-try", "in-except", "in-finally", "augmented-assign", "annotated-assign", "raise",
           "f-string(unjudged)", "lambda(unjudged)", "comprehension(unjudged)", "twice-on-one-line", "nested-call-argument",
@@ -96,6 +97,12 @@ def build(a):
     elif shape == "annotated-parenthesised-default-and-return-annotation": L.append(sig(declared + ["*", "b: int = (1)"], " -> None:"))
     elif shape == "last-positional-parenthesised-default": L.append(sig([p] + declared + ["b=(1)"]))
     elif shape == "keyword-only-tuple-default": L.append(sig(declared + ["*", "b=(1, 2)"]))
+    elif shape == "default-then-kwargs": L.append(sig([p] + declared + ['b="bob"', "**extra"]))
+    elif shape == "only-kwargs": L.append(sig(declared + ["**extra"]))
+    elif shape == "only-varargs": L.append(sig(declared + ["*rest"]))
+    elif shape == "default-then-varargs": L.append(sig([p] + declared + ["b=1", "*rest"]))
+    elif shape == "keyword-only-then-kwargs": L.append(sig(declared + ["*", "b", "**extra"]))
+    elif shape == "two-defaults-then-kwargs": L.append(sig(declared + ["b=1", "c=2", "**extra"]))
     bi = ind + "    "
     if bind == "local-assigned-earlier": L.append(bi + "%s = object()" % N)
     if bind == "for-target-earlier":
